@@ -36,7 +36,9 @@ ASSUMPTIONS = [
     "residual Rice parameters are raised where needed so that no unary run exceeds 72 bits (cost bound, still crosses 32-bit words)",
     "sample_count in the SPHERE header equals the number of encoded samples per channel",
     "error clause: strict prefixes are taken from streams without extra padding words; arbitrary corruption is not judged",
-    "the default dtype is used (mu-law is returned expanded to 16-bit linear as in the shipped test for the ulaw vectors)",
+    "the default dtype is used (mu-law is returned expanded to 16-bit linear as in the shipped test for the ulaw vectors); "
+    "mu-law streams are additionally read with dtype uint8, which returns the encoded 8-bit codes themselves (the only way to tell "
+    "the codes 0x7F and 0xFF, both linear 0, apart)",
 ]
 
 CMDS = ("DIFF0", "DIFF1", "DIFF2", "DIFF3", "QLPC", "ZERO")
@@ -173,6 +175,8 @@ def build(case, extra_steps=None, pad=True, version_byte=None):
         raise HarnessError("channels of unequal length")
     frames_arr = np.array(chans, dtype=np.int64).T.reshape(n, nchan)
     expected = se.expected_output(ftype, frames_arr)
+    codes = frames_arr.astype(np.uint8)
+    codes = codes[:, 0] if nchan == 1 else codes
     header = se.sphere_header(ftype, version, nchan, n, case.get("rate", 16000))
     if len(stream) > 16384:
         # the reader takes 16 KiB first and refills its word buffer 1 KiB at a time
@@ -190,6 +194,7 @@ def build(case, extra_steps=None, pad=True, version_byte=None):
     stats = {
         "nontrivial": len(cmds_seen) >= 2 and nblocks >= 2 * nchan and feature,
         "stream": stream,
+        "codes": codes,
         "steps": steps,
         "nsteps": len(steps),
         "info": info,
@@ -197,16 +202,16 @@ def build(case, extra_steps=None, pad=True, version_byte=None):
     return header, stream, expected, labels, stats
 
 
-def _read(data, via_path):
+def _read(data, via_path, dtype=None):
     from pydrobert.speech.util import read_signal
 
     if not via_path:
-        return read_signal(io.BytesIO(data), force_as="sph")
+        return read_signal(io.BytesIO(data), dtype=dtype, force_as="sph")
     with tempfile.TemporaryDirectory(prefix="verif_c13_") as td:
         path = os.path.join(td, "utt.sph")
         with open(path, "wb") as f:
             f.write(data)
-        return read_signal(path)
+        return read_signal(path, dtype=dtype)
 
 
 def _where(e):
@@ -218,9 +223,9 @@ def _where(e):
     return ""
 
 
-def _decode(desc, data, via_path):
+def _decode(desc, data, via_path, dtype=None):
     try:
-        return _read(data, via_path)
+        return _read(data, via_path, dtype)
     except Exception as e:  # noqa
         raise Violation("%s raised %s: %s%s" % (desc, type(e).__name__, str(e)[:160], _where(e)))
 
@@ -253,6 +258,15 @@ def check_roundtrip(case):
         labels.add("via-path")
         got = _decode("read_signal('utt.sph')", data, True)
         _compare("read_signal('utt.sph')", got, expected)
+    if case["ftype"] == se.TYPE_AU2 and case.get("raw_codes", True):
+        # the samples a mu-law stream encodes are the 8-bit codes themselves (two of them, 0x7F and 0xFF, expand
+        # to the same linear value 0): a 1-byte dtype returns them unexpanded
+        labels.add("raw-codes")
+        codes = stats["codes"]
+        if bool((codes == 0x7F).any()):
+            labels.add("raw-codes:negative-zero")
+        got = _decode("read_signal(BytesIO, dtype=uint8, force_as='sph')", data, False, np.uint8)
+        _compare("read_signal(BytesIO, dtype=uint8, force_as='sph')", got, codes)
     return {"nontrivial": stats["nontrivial"], "labels": sorted(labels)}
 
 
